@@ -40,21 +40,27 @@ from prompt_toolkit.utils import get_cwidth
 
 ID = "C06"
 DRIVER = "drv_c06"
-PROPS = ["Ptk.Props.C06", "Ptk.Props.C06Scroll", "Ptk.Props.C06Wide", "Ptk.Props.C06Diff", "Ptk.Props.C06Lemmas"]
+PROPS = ["Ptk.Props.C06", "Ptk.Props.C06Scroll", "Ptk.Props.C06Wide", "Ptk.Props.C06WideCells",
+         "Ptk.Props.C06Diff", "Ptk.Props.C06Lemmas"]
 LEVEL_TEXT = ("Lean 4 theorems over an executable model of the screen differ (_output_screen_diff with "
               "move_cursor / output_char / get_max_column_index, Renderer render/erase/reset/clear state) and of "
               "a VT100 terminal. For width-1 cells: executing the differ's output on a terminal that shows the "
               "previous screen yields the new screen, cursor on the screen's cursor, SGR reset, cursor visibility "
               "and autowrap as required (diff_correct, diff_done, diff_done_scroll); this invariant is carried "
               "over every finite sequence of render/done/erase/clear (render_seq) and the result is visibly "
-              "identical to a from-scratch draw (incremental_eq_scratch). For arbitrary printable cells (wide, "
-              "multi-character, combining): writes stay inside the owned rows/columns, nothing scrolls, no cursor "
-              "motion passes the margins, over single calls and over sequences (diff_confined_wide, "
-              "no_scroll_wide, render_seq_geo). The model is tied to /repo on every run by a call-by-call "
+              "identical to a from-scratch draw (incremental_eq_scratch). The same for screens with wide "
+              "(two-column) characters under the xterm rule that overwriting one half of a wide character blanks "
+              "the other half (diff_correct_wide, render_seq_wide, incremental_eq_scratch_wide). For arbitrary "
+              "printable cells (also multi-character cells like ^A and combining characters): writes stay inside "
+              "the owned rows/columns, nothing scrolls, no cursor motion passes the margins, over single calls and "
+              "over sequences (diff_confined_wide, no_scroll_wide, render_seq_geo). The model is tied to /repo on every run by a call-by-call "
               "correspondence, a cross-check of the Lean terminal model against a byte-level VT100 interpreter, "
               "and the property oracle on real Renderer + Vt100_Output output (also for real PromptSession layouts)")
-LEVEL_NOTE = ("partial: the terminal is a model (trusted); cell CONTENTS of wide / multi-character cells are covered "
-              "by the correspondence and the oracle only; trusted: Lean kernel, propext/Classical.choice/Quot.sound")
+LEVEL_NOTE = ("partial: the terminal is a model (trusted); cell CONTENTS of multi-character cells (^A, <80>) and of "
+              "cells with combining characters are covered by the correspondence and the oracle only; trusted: Lean "
+              "kernel, propext/Classical.choice/Quot.sound")
+TECHNIQUE = ("Lean 4 proof over an executable model of the screen differ and a VT100 terminal model + call-by-call "
+             "differential correspondence + byte-level VT100 interpreter oracle on the real Renderer / Vt100_Output")
 RULE = ("exhaustive: every pair (thorough: triple) of screens over 3 cell kinds {default blank, 'a', styled "
         "blank} on tiny terminals, inline and full-screen, rendered as a chain, every third one ending with a done "
         "render; then seeded random chains of <= 8 screens (W<=12, H<=6, origin below the top, wide and multi-char "
@@ -82,7 +88,8 @@ ASSUMPTIONS = ["VT100/xterm semantics as modelled (autowrap off: cursor stays on
                "runtime wcwidth is data (Char.width); a space is one column wide",
                "the drawn rows fit between the origin and the bottom of the terminal (otherwise the renderer "
                "scrolls on purpose to reserve space)"]
-PARTIAL_SCOPE = ["cell contents: theorems cover width-1 single-character cells; for wide and multi-character cells "
+PARTIAL_SCOPE = ["cell contents: theorems cover single-character cells of width 1 and 2 (wide characters followed by "
+                 "their empty continuation cell); for multi-character cells (^A, <80>) and combining characters "
                  "only geometry (confinement, no scroll, cursor, modes) is proved, contents are checked by "
                  "correspondence and oracle",
                  "alternate-screen switching, mouse/bracketed-paste modes, cursor shape, CPR are modelled as "
